@@ -19,28 +19,31 @@ namespace KinModel.Loader
 /-
 FULL STATEMENT (does not hold of the code, see the witnesses below):
   load w fuel root = .ok s → ∀ (o, v) ∈ s.value, ∃ f, designates w f o = some v
-What is proved: the same under
-  * `TextIsGlobal` (finding #29: the in-progress set and the backtrack table are keyed by the reference TEXT,
-    so the same relative text written in two directories is confused), and
-  * `s.foreign = false` — in this run no reference was evaluated in a context other than the one it is
-    written in (the second walk of a value's children happens with the REFERRING document's path; a
-    whole-file load switches the path but not the document). `foreign` is computed by the model itself, so the
-    hypothesis is decidable per input and is reported by the driver as the class `ForeignContext`.
+What is proved: the same for runs in which neither of two events happened. Both are flags computed by the model
+itself, so the hypothesis is decidable per input and the driver reports it as a class:
+  * `s.tclash = false` — no backtrack callback fired for a reference whose own one-step target (read where it is
+    written) differs from the target of the visit that fired it. Finding #29: the in-progress set and the backtrack
+    table are keyed by the reference TEXT, so the same relative text written in two directories is confused.
+    Class `TextNotGlobal`. (The static condition `TextIsGlobal w` — every text means the same from every home — is
+    sufficient but far from necessary; it is no longer a hypothesis.)
+  * `s.foreign = false` — no reference was evaluated in a context other than the one it is written in (the second
+    walk of a value's children happens with the REFERRING document's path; a whole-file load switches the path but
+    not the document). Class `ForeignContext`.
 -/
 
 /-- (2) After a successful resolution every reference that was given a value stands for exactly the object
 its text designates from the context it is written in (through chains and cycles, kind checked at every hop). -/
-theorem resolve_ok_resolves_partial (w : World) (hT : TextIsGlobal w) (hC : CopyOK w) (fuel : Nat) (cx : Loc) (o : Obj) (s : St)
-    (h : resolve w fuel cx o {} = .ok s) (hf : s.foreign = false) :
+theorem resolve_ok_resolves_partial (w : World) (hC : CopyOK w) (fuel : Nat) (cx : Loc) (o : Obj) (s : St)
+    (h : resolve w fuel cx o {} = .ok s) (hf : s.foreign = false) (ht : s.tclash = false) :
     ∀ r v, (r, v) ∈ s.value → ∃ f, designates w f r = some v :=
-  ((resolve_pres w hT hC fuel cx o {} s h hf).2 ⟨by intro i v h; simp at h, by intro t m h; simp at h⟩).1
+  ((resolve_pres w hC fuel cx o {} s h ⟨hf, ht⟩).2 ⟨by intro i v h; simp at h, by intro t m h; simp at h⟩).1
 
 /-- (2) for a whole document: `load` walks the root positions of the root document. -/
-theorem load_ok_resolves_partial (w : World) (hT : TextIsGlobal w) (hC : CopyOK w) (fuel : Nat) (root : Loc) (s : St)
-    (h : load w fuel root = .ok s) (hf : s.foreign = false) :
+theorem load_ok_resolves_partial (w : World) (hC : CopyOK w) (fuel : Nat) (root : Loc) (s : St)
+    (h : load w fuel root = .ok s) (hf : s.foreign = false) (ht : s.tclash = false) :
     ∀ r v, (r, v) ∈ s.value → ∃ f, designates w f r = some v := by
   unfold load at h
-  have := pres_foldRes w _ (fun k => resolve_pres w hT hC fuel root k) (w.roots root) _ s h hf
+  have := pres_foldRes w _ (fun k => resolve_pres w hC fuel root k) (w.roots root) _ s h ⟨hf, ht⟩
   exact (this.2 ⟨by intro i v h; simp at h, by intro t m h; simp at h⟩).1
 
 
@@ -138,10 +141,10 @@ theorem load_ok_complete_partial (w : World) (fuel : Nat) (root : Loc) (s : St)
     rw [hi] at this
     simp at this
 
-/-- (2)+(4) together: in a clean run without foreign evaluation, every reference of the loaded graph (the copies the
+/-- (2)+(4) together: in a clean run without foreign evaluation and without a text clash, every reference of the loaded graph (the copies the
 resolvers make are not part of it) HAS a value and that value is the object its text designates. -/
-theorem load_ok_resolves_all_partial (w : World) (hT : TextIsGlobal w) (hC : CopyOK w) (fuel : Nat) (root : Loc) (s : St)
-    (h : load w fuel root = .ok s) (hf : s.foreign = false) (hc : Clean s) :
+theorem load_ok_resolves_all_partial (w : World) (hC : CopyOK w) (fuel : Nat) (root : Loc) (s : St)
+    (h : load w fuel root = .ok s) (hf : s.foreign = false) (ht : s.tclash = false) (hc : Clean s) :
     ∀ o n t, Reach w s root o → w.node o = some n → n.ref = some t → n.orig = none →
       ∃ v f, s.get o = some v ∧ designates w f o = some v := by
   intro o n t hreach hn hr ho
@@ -155,17 +158,17 @@ theorem load_ok_resolves_all_partial (w : World) (hT : TextIsGlobal w) (hC : Cop
   cases hg : s.get o with
   | none => simp [hg] at h1
   | some v =>
-    obtain ⟨f, hf'⟩ := load_ok_resolves_partial w hT hC fuel root s h hf o v (get_mem s o v hg)
+    obtain ⟨f, hf'⟩ := load_ok_resolves_partial w hC fuel root s h hf ht o v (get_mem s o v hg)
     exact ⟨v, f, rfl, hf'⟩
 
-/-- (3) at the level of a whole load: when the document loads (clean run, no foreign evaluation) there is no reference
+/-- (3) at the level of a whole load: when the document loads (clean run, no foreign evaluation, no text clash) there is no reference
 in the loaded graph whose target does not exist, is of the wrong kind, or closes a pure reference cycle — such a
 reference makes loading fail. -/
-theorem load_ok_no_dangling_partial (w : World) (hT : TextIsGlobal w) (hC : CopyOK w) (fuel : Nat) (root : Loc) (s : St)
-    (h : load w fuel root = .ok s) (hf : s.foreign = false) (hc : Clean s) :
+theorem load_ok_no_dangling_partial (w : World) (hC : CopyOK w) (fuel : Nat) (root : Loc) (s : St)
+    (h : load w fuel root = .ok s) (hf : s.foreign = false) (ht : s.tclash = false) (hc : Clean s) :
     ¬ ∃ o n t, Reach w s root o ∧ w.node o = some n ∧ n.ref = some t ∧ n.orig = none ∧ ∀ f, designates w f o = none := by
   rintro ⟨o, n, t, hreach, hn, hr, ho, hnone⟩
-  obtain ⟨v, f, _, hd⟩ := load_ok_resolves_all_partial w hT hC fuel root s h hf hc o n t hreach hn hr ho
+  obtain ⟨v, f, _, hd⟩ := load_ok_resolves_all_partial w hC fuel root s h hf ht hc o n t hreach hn hr ho
   rw [hnone f] at hd
   cases hd
 
@@ -237,8 +240,9 @@ def w29 : World where
     | 7 => if c ≤ 1 then some (1, 1) else some (3, 5)
     | _ => some (2, 3)
 
-/-- the loader's algorithm gives `q` (object 4, written in /r/b) the value a/x.json#/S (object 1) … -/
-theorem w29_model : (match load w29 20 0 with | .ok s => (s.get 4, s.foreign) | _ => (none, true)) = (some 1, false) := by decide
+/-- the loader's algorithm gives `q` (object 4, written in /r/b) the value a/x.json#/S (object 1) through a callback
+    of the visit of object 0 (`tclash`), with no foreign evaluation … -/
+theorem w29_model : (match load w29 20 0 with | .ok s => (s.get 4, s.foreign, s.tclash) | _ => (none, true, false)) = (some 1, false, true) := by decide
 /-- … while it designates b/x.json#/S (object 5): model ≠ spec with no foreign evaluation, as on the real code -/
 theorem w29_spec : designates w29 5 4 = some 5 := by decide
 theorem w29_text_not_global : ¬ TextIsGlobal w29 := by
@@ -292,7 +296,7 @@ def w47 : World where
     | _ => if c = 1 then some (0, 3) else none
 
 /-- every reference designates an object, yet loading fails — after evaluating a reference in a foreign context -/
-theorem w47_model_fails : (match load w47 20 0 with | .err fg => fg | _ => false) = true := by decide
+theorem w47_model_fails : (match load w47 20 0 with | .err fl => fl.foreign && !fl.tclash | _ => false) = true := by decide
 theorem w47_spec : designates w47 5 0 = some 1 ∧ designates w47 5 2 = some 1 := by decide
 theorem w47_text_global : TextIsGlobal w47 := by
   have key : ∀ o n, w47.node o = some n → ∀ t, n.ref = some t → n.home = (if t = 0 then 0 else 1) ∧ n.kind = .schema := by
@@ -356,12 +360,12 @@ def wCycle : World where
     | _ => some (1, 3)
 
 example : (match load wCycle 20 0 with
-    | .ok s => (!s.foreign) && s.get 0 == some 1 && s.get 2 == some 3 && s.get 4 == some 1
+    | .ok s => (!s.foreign) && (!s.tclash) && s.get 0 == some 1 && s.get 2 == some 3 && s.get 4 == some 1
     | _ => false) = true := by decide
 
-/-- … and it satisfies the hypotheses of the partial theorems (`s.foreign = false` and `Clean s`: the two examples around) -/
-example : TextIsGlobal wCycle ∧ CopyOK wCycle := by
-  refine ⟨fun _ _ _ _ _ _ _ _ _ _ => rfl, ?_⟩
+/-- … and it satisfies the remaining hypothesis of the partial theorems (`s.foreign = false`, `s.tclash = false` and
+    `Clean s`: the two examples around) -/
+example : CopyOK wCycle := by
   intro c n r hn ho
   rcases c with _ | _ | _ | _ | _ | c <;> simp [World.node, wCycle] at hn <;> subst hn <;> simp at ho
 
